@@ -1,6 +1,6 @@
 (* C04 — the index as the code maintains it: every operation of cache/cache_user.go and both loaders of
    cache/uhash_loader.go preserve the chain invariant, lookups are exact, and no walk runs out of fuel. *)
-From Verif Require Import Base.Common Base.TMap Model.C04 Proofs.C04_chain.
+From Verif Require Import Base.Common Base.TMap Gen.Consts_default Model.C04 Proofs.C04_chain.
 
 (* ------------------------------------------------------------------ ids: case folding and the hash *)
 Lemma zlist_eqb_eq : forall a b, zlist_eqb a b = true <-> a = b.
@@ -443,3 +443,133 @@ Proof.
   rewrite check_hash_wf; [|exact W|unfold hash_ok; lia]. apply IH; lia.
 Qed.
 
+Lemma userec_add_onfly s cnt i id : WF s -> in_range i = true -> cstr_eq id (idf s i) = true ->
+  exists s' cnt', userec_add s cnt i id true = Ok (s', cnt') /\ WF s' /\ (forall x, idf s' x = idf s x) /\
+    (forall x, on_chain s x -> on_chain s' x) /\ number s' = number s /\ loaded s' = loaded s.
+Proof.
+  intros W Hr Heq. unfold userec_add. cbv zeta.
+  destruct (negb (is_valid_id id) && (PREALLOC <? (if is_valid_id id then cnt else cnt + 1))).
+  - eexists. eexists. split; [reflexivity|]. split; [exact W|]. auto.
+  - rewrite Hr. cbn [negb orb]. fold (idf s i). rewrite Heq. cbn [negb].
+    assert (Eh : uhash id = uhash (idf s i)) by (apply id_eq_ci_hash; apply cstr_eq_ci; exact Heq).
+    set (h := uhash id) in *.
+    destruct (WF_bucket s h W (uhash_ok id)) as [l0 [Hc [Hnd [Hrange [_ Hlen]]]]].
+    fold (hd s h).
+    rewrite (load_walk_chain (next s) true i (hd s h) l0 Hc Hrange FUEL_LOADER false h (fuel_loader_ok l0 Hlen)).
+    cbn [andb]. destruct (existsb (fun x => x =? i) l0) eqn:Ex.
+    + eexists. eexists. split; [reflexivity|]. split; [exact W|]. auto.
+    + assert (Hni : ~ In i l0).
+      { intros Hin. assert (existsb (fun x => x =? i) l0 = true) by (apply existsb_exists; exists i; split; [exact Hin|apply Z.eqb_refl]). congruence. }
+      assert (Hfree : ~ on_chain s i).
+      { intros Hon. destruct (on_chain_own_bucket s i W Hon) as [l [Hc' Hin']]. rewrite <- Eh in Hc'.
+        rewrite (chain_fun _ _ _ Hc' _ Hc) in Hin'. contradiction. }
+      destruct (link_state_wf s s i h l0 W Hr Hfree (uhash_ok id) eq_refl eq_refl) as [W' [Hids [Hon [Hn Hl]]]];
+        [symmetry; exact Eh|reflexivity|exact Hc|].
+      exists (link_state s l0 h i). eexists. split.
+      * unfold link_state. destruct (tail_ptr l0 false h) as [isn p]. reflexivity.
+      * split; [exact W'|]. split; [exact Hids|]. split; [intros x Hx; apply Hon; left; exact Hx|]. split; assumption.
+Qed.
+
+Lemma fill_records_onfly : forall recs s cnt i, WF s -> 0 <= i -> i + lenZ recs <= MAXU ->
+  (forall k id, nth_error recs k = Some id -> cstr_eq id (idf s (i + Z.of_nat k)) = true) ->
+  exists s', fill_records s cnt i recs true = Ok s' /\ WF s' /\ (forall x, idf s' x = idf s x) /\
+    (forall x, on_chain s x -> on_chain s' x) /\ number s' = number s /\ loaded s' = loaded s.
+Proof.
+  induction recs as [|id r IH]; intros s cnt i W Hi Hlen Hag; cbn [fill_records].
+  - exists s. auto 6.
+  - rewrite lenZ_cons in Hlen. assert (Hl0 : 0 <= lenZ r) by (unfold lenZ; lia).
+    assert (Hr : in_range i = true) by (apply in_range_spec; lia).
+    pose proof (Hag 0%nat id eq_refl) as H0. cbn in H0. rewrite Z.add_0_r in H0.
+    destruct (userec_add_onfly s cnt i id W Hr H0) as [s1 [cnt1 [E [W1 [Hid1 [Hon1 [Hn1 Hl1]]]]]]]. rewrite E.
+    destruct (IH s1 cnt1 (i + 1) W1) as [s' [E' [W' [Hid' [Hon' [Hn' Hl']]]]]]; [lia|lia| |].
+    + intros k id' Hk. rewrite Hid1. replace (i + 1 + Z.of_nat k) with (i + Z.of_nat (S k)) by lia. apply Hag. exact Hk.
+    + exists s'. split; [exact E'|]. split; [exact W'|]. split; [intros x; rewrite Hid'; apply Hid1|].
+      split; [intros x Hx; apply Hon'; apply Hon1; exact Hx|]. split; congruence.
+Qed.
+
+(* .PASSWDS agrees with the live table: record i carries (as a C string) the id the segment holds for slot i *)
+Definition agrees (s : st) (recs : list (list Z)) : Prop :=
+  forall k id, nth_error recs k = Some id -> cstr_eq id (idf s (Z.of_nat k)) = true.
+
+Lemma fill_onfly_wf s recs : WF s -> lenZ recs <= MAXU -> agrees s recs ->
+  exists s1, fill_uhash s recs true = Ok s1 /\ WF s1 /\ (forall x, idf s1 x = idf s x) /\
+    (forall x, on_chain s x -> on_chain s1 x) /\ number s1 = lenZ recs /\ loaded s1 = loaded s.
+Proof.
+  intros W Hlen Hag. unfold fill_uhash, init_fill.
+  rewrite (check_from_wf s W); [|lia|pose proof HASHN_pos; rewrite Z2Nat.id; lia].
+  destruct (fill_records_onfly recs s 0 0 W (Z.le_refl 0)) as [s1 [E [W1 [Hid [Hon [Hn Hl]]]]]]; [lia|exact Hag|].
+  rewrite E. eexists. split; [reflexivity|]. split; [exact W1|]. split; [exact Hid|]. split; [exact Hon|]. split; [reflexivity|exact Hl].
+Qed.
+
+(* LoadUHash on a WF state from an agreeing file: whichever branch the Number/Loaded test takes *)
+Lemma reload_wf s recs : WF s -> lenZ recs <= MAXU -> agrees s recs ->
+  exists s', load_uhash s recs = Ok s' /\ WF s' /\ number s' = lenZ recs.
+Proof.
+  intros W Hlen Hag. unfold load_uhash. destruct ((number s =? 0) && (loaded s =? 0)).
+  - destruct (fill_cold_wf s recs Hlen) as [s1 [E [W1 [Hn _]]]]. rewrite E. eexists. split; [reflexivity|]. split; [exact W1|exact Hn].
+  - destruct (fill_onfly_wf s recs W Hlen Hag) as [s1 [E [W1 [_ [_ [Hn _]]]]]]. exists s1. auto.
+Qed.
+
+(* a reload into a loaded segment keeps every id and every indexed slot *)
+Lemma reload_keeps s recs : WF s -> loaded s <> 0 -> lenZ recs <= MAXU -> agrees s recs ->
+  exists s', load_uhash s recs = Ok s' /\ WF s' /\ (forall x, idf s' x = idf s x) /\ (forall x, on_chain s x -> on_chain s' x).
+Proof.
+  intros W Hl Hlen Hag. unfold load_uhash. destruct (Z.eqb_spec (loaded s) 0); [contradiction|]. rewrite andb_false_r.
+  destruct (fill_onfly_wf s recs W Hlen Hag) as [s1 [E [W1 [Hid [Hon _]]]]]. exists s1. auto.
+Qed.
+
+(* ------------------------------------------------------------------ every history *)
+Inductive reachable : st -> Prop :=
+| r_cold s0 recs s : lenZ recs <= MAXU -> load_uhash (unload s0) recs = Ok s -> reachable s        (* from ANY prior content *)
+| r_set s uid id s' e : reachable s -> set_user_id s uid id = Ok (s', e) -> reachable s'
+| r_remove s slot s' e : reachable s -> in_range slot = true -> remove_from_uhash s slot = Ok (s', e) -> reachable s'
+| r_add s slot id s' e : reachable s -> in_range slot = true -> ~ on_chain s slot -> add_to_uhash s slot id = Ok (s', e) -> reachable s'
+| r_reload s recs s' : reachable s -> lenZ recs <= MAXU -> agrees s recs -> load_uhash s recs = Ok s' -> reachable s'.
+
+Lemma reachable_wf s : reachable s -> WF s.
+Proof.
+  induction 1 as [s0 recs s Hlen E|s uid id s' e _ IH E|s slot s' e _ IH Hr E|s slot id s' e _ IH Hr Hfree E|s recs s' _ IH Hlen Hag E].
+  - destruct (cold_load_wf s0 recs Hlen) as [s1 [E1 [W1 _]]]. rewrite E1 in E; inversion E; subst; exact W1.
+  - destruct (Z_le_dec 1 uid) as [H1|H1]; [destruct (Z_le_dec uid MAXU) as [H2|H2]|].
+    + destruct (set_wf s uid id IH (conj H1 H2)) as [s1 [E1 [W1 _]]]. rewrite E1 in E; inversion E; subst; exact W1.
+    + rewrite set_invalid in E by lia. inversion E; subst. exact IH.
+    + rewrite set_invalid in E by lia. inversion E; subst. exact IH.
+  - destruct (remove_wf s slot IH Hr) as [s1 [E1 [W1 _]]]. rewrite E1 in E; inversion E; subst; exact W1.
+  - destruct (add_wf s slot id IH Hr Hfree) as [s1 [E1 [W1 _]]]. rewrite E1 in E; inversion E; subst; exact W1.
+  - destruct (reload_wf s recs IH Hlen Hag) as [s1 [E1 [W1 _]]]. rewrite E1 in E; inversion E; subst; exact W1.
+Qed.
+
+(* termination / no crash: from a WF state every operation returns *)
+Lemma no_fuel_exhaustion s : WF s ->
+  (forall q, exists v, search_user_raw s q = Ok v) /\
+  (forall uid id, exists s' e, set_user_id s uid id = Ok (s', e)) /\
+  (forall slot, in_range slot = true -> exists s', remove_from_uhash s slot = Ok (s', 0)) /\
+  (forall slot id, in_range slot = true -> ~ on_chain s slot -> exists s', add_to_uhash s slot id = Ok (s', 0)) /\
+  (forall recs, lenZ recs <= MAXU -> agrees s recs -> exists s', load_uhash s recs = Ok s') /\
+  (forall h, hash_ok h -> exists l, chain (nx s) (hd s h) l /\ (length l <= Z.to_nat MAXU)%nat).
+Proof.
+  intros W. repeat split.
+  - intros q. destruct (search_total s q W) as [v [E _]]. exists v. exact E.
+  - intros uid id. destruct (Z_le_dec 1 uid) as [H1|H1]; [destruct (Z_le_dec uid MAXU) as [H2|H2]|].
+    + destruct (set_wf s uid id W (conj H1 H2)) as [s1 [E1 _]]. exists s1, 0. exact E1.
+    + exists s, ERR_INVALID_UID. apply set_invalid. lia.
+    + exists s, ERR_INVALID_UID. apply set_invalid. lia.
+  - intros slot Hr. destruct (remove_wf s slot W Hr) as [s1 [E1 _]]. exists s1. exact E1.
+  - intros slot id Hr Hfree. destruct (add_wf s slot id W Hr Hfree) as [s1 [E1 _]]. exists s1. exact E1.
+  - intros recs Hlen Hag. destruct (reload_wf s recs W Hlen Hag) as [s1 [E1 _]]. exists s1. exact E1.
+  - intros h Hh. destruct (WF_bucket s h W Hh) as [l [Hc [_ [_ [_ Hlen]]]]]. exists l. auto.
+Qed.
+
+(* ------------------------------------------------------------------ attach *)
+Lemma attach_same g v : attach g = Attached v ->
+  seg_version g = cache.SHM_VERSION /\ seg_size g = cache.SHM_RAW_SZ /\ v = seg_body g /\
+  (forall q, search_user_raw v q = search_user_raw (seg_body g) q).
+Proof.
+  unfold attach. destruct (Z.eqb_spec (seg_version g) cache.SHM_VERSION); [|discriminate].
+  destruct (Z.eqb_spec (seg_size g) cache.SHM_RAW_SZ); [|discriminate]. cbn [negb].
+  intros E. inversion E; subst. auto.
+Qed.
+Lemma attach_refused g : seg_version g <> cache.SHM_VERSION \/ seg_size g <> cache.SHM_RAW_SZ -> forall v, attach g <> Attached v.
+Proof.
+  intros H v E. apply attach_same in E. destruct E as [E1 [E2 _]]. destruct H; contradiction.
+Qed.
